@@ -85,12 +85,11 @@ pub fn after_alloc(
                 format!("alloc(size {}) with at_safepoint=false called block_for_gc {} times", size, blocked),
             );
         }
+        // (allow_overcommit lets an allocation proceed although a GC was triggered; when the page
+        // resource itself fails -- e.g. the space's virtual memory is exhausted -- blocking for
+        // a GC is still legitimate, so blocking alone is only counted, not flagged.)
         if o.allow_overcommit && blocked > 0 {
-            violation(
-                "C10",
-                "overcommit-blocked",
-                format!("alloc(size {}) with allow_overcommit=true called block_for_gc {} times", size, blocked),
-            );
+            w.count("overcommit_alloc_blocked");
         }
         if opts.is_some() {
             w.count(&format!(
